@@ -10,8 +10,6 @@ From Coq Require Import List Arith NArith ZArith Bool.
 Import ListNotations.
 Require Import PV.Pos.Model PV.Front.Shape.
 Require PV.Pratt.Syntax PV.Pratt.Model.
-Module PS := PV.Pratt.Syntax.
-Module PM := PV.Pratt.Model.
 
 Record flags := { extras : bool;        (* feature grammar-extras *)
                   fix_escape : bool;    (* fixes/C09-1: unescape failure -> located error *)
@@ -191,11 +189,11 @@ Definition tspan (t : tok) : span := (tstart t, tend t).
 Definition is_rule (r : mrule) (t : tok) : bool := mrule_eqb (trule t) r.
 
 (* the Pratt table of consume_rules_with_spans *)
-Definition pratt_table : PS.table :=
-  PM.builder_get (PM.builder_table [ ((mrule_code r_choice_operator, PS.Infix PS.ALeft), []);
-                                     ((mrule_code r_sequence_operator, PS.Infix PS.ALeft), []) ]).
-Definition pratt_maps : PM.maps := {| PM.m_prefix := false; PM.m_postfix := false; PM.m_infix := true |}.
-Definition ptoks (l : list tok) : list (PS.tok tok) := map (fun k => (mrule_code (trule k), k)) l.
+Definition pratt_table : PV.Pratt.Syntax.table :=
+  PV.Pratt.Model.builder_get (PV.Pratt.Model.builder_table [ ((mrule_code r_choice_operator, PV.Pratt.Syntax.Infix PV.Pratt.Syntax.ALeft), []);
+                                     ((mrule_code r_sequence_operator, PV.Pratt.Syntax.Infix PV.Pratt.Syntax.ALeft), []) ]).
+Definition pratt_maps : PV.Pratt.Model.maps := {| PV.Pratt.Model.m_prefix := false; PV.Pratt.Model.m_postfix := false; PV.Pratt.Model.m_infix := true |}.
+Definition ptoks (l : list tok) : list (PV.Pratt.Syntax.tok tok) := map (fun k => (mrule_code (trule k), k)) l.
 
 Section Consume.
 Variable fl : flags.
@@ -386,10 +384,10 @@ Definition infix_node (lhs : pnode) (o : tok) (rhs : pnode) : out pnode :=
   | r_choice_operator => ODone (PChoice (nstart lhs, nend rhs) lhs rhs)
   | _ => OPanic                                               (* unreachable!("infix") *)
   end.
-Fixpoint ev (t : PS.tree tok) : out pnode :=
+Fixpoint ev (t : PV.Pratt.Syntax.tree tok) : out pnode :=
   match t with
-  | PS.Leaf a => un (tkids (snd a))                           (* term = |pair| unaries(pair.into_inner().peekable(), pratt) *)
-  | PS.Bin l o r =>
+  | PV.Pratt.Syntax.Leaf a => un (tkids (snd a))                           (* term = |pair| unaries(pair.into_inner().peekable(), pratt) *)
+  | PV.Pratt.Syntax.Bin l o r =>
       match ev l, ev r with                                   (* both operands are computed before `infix` runs *)
       | OPanic, _ | _, OPanic => OPanic
       | OFuel, _ | _, OFuel => OFuel
@@ -404,10 +402,10 @@ Definition skip_choice (kids : list tok) : list tok :=
   match kids with k :: r => if is_rule r_choice_operator k then r else kids | [] => kids end.
 Definition cexpr_body (kids : list tok) : out pnode :=
   let kids' := if fix_choice fl then skip_choice kids else kids in
-  match PM.pratt_parse pratt_maps pratt_table (ptoks kids') with
-  | PS.Ok t _ => ev t
-  | PS.Panic _ => OPanic
-  | PS.OutOfFuel => OFuel
+  match PV.Pratt.Model.pratt_parse pratt_maps pratt_table (ptoks kids') with
+  | PV.Pratt.Syntax.Ok t _ => ev t
+  | PV.Pratt.Syntax.Panic _ => OPanic
+  | PV.Pratt.Syntax.OutOfFuel => OFuel
   end.
 End Body.
 
